@@ -133,6 +133,7 @@ TYPES = {"MachineMode": "MachineMode", "Reg": "Reg", "AsmRegister": "Reg", "AnyR
          "bool": "Bool", "i32": "Int", "i64": "Int", "u32": "Int", "u8": "Int", "usize": "Int",
          "RuntimeFunction": "RuntimeFunction", "AsmAddress": "Addr", "()": "Unit"}
 ENUMS = {}            # name -> variants (filled by extract_enums)
+KNOWN_CONSTS = set()  # upper-case constants the generated MasmTypes.lean defines (registers, register lists)
 INT_CONSTS = {("i64", "min_value"): "(-9223372036854775808 : Int)", ("i64", "MIN"): "(-9223372036854775808 : Int)",
               ("i32", "min_value"): "(-2147483648 : Int)", ("i32", "MIN"): "(-2147483648 : Int)",
               ("i64", "max_value"): "(9223372036854775807 : Int)", ("i64", "MAX"): "(9223372036854775807 : Int)",
@@ -331,6 +332,8 @@ class Tr:
                 if "self" in self.vars:
                     return "self_"
                 raise Unsupported("bare self")
+            if re.fullmatch(r"[A-Z][A-Z0-9_]*", n) and n not in self.vars and n not in KNOWN_CONSTS:
+                raise Unsupported("constant %s is not modelled" % n)
             return ident(n)
         if len(segs) == 2 and segs[0] in ENUMS:
             if segs[1] not in ENUMS[segs[0]]:
@@ -382,6 +385,12 @@ class Tr:
             if name == "get_scratch":
                 raise Unsupported("get_scratch outside `let x = self.get_scratch();`")
             if name in self.known or name in PRELUDE_FNS:
+                if name in self.known:
+                    # `*scratch` passed where a register is expected: rsparse drops the deref, the model's ScratchReg
+                    # is a structure
+                    ps = self.known[name][0]
+                    a = [x + ".reg" if k < len(ps) and ps[k][1] == "Reg" and self.type_of(args[k]) == "ScratchReg" else x
+                         for k, x in enumerate(a)]
                 return "(← %s)" % " ".join([ident(name)] + a)
             raise Unsupported("self.%s is not modelled" % name)
         if recv[0] == "field" and recv[1] == ("path", ["self"]) and recv[2] == "asm":
@@ -804,6 +813,9 @@ def main(argv):
     ENUMS["Mem"] = ["Local", "Base", "Index", "Offset"]               # declared in MasmPrelude.lean
     codes = extract_condition_codes(src[ASM])
     regs, alias, arrays = extract_cpu_consts(src[CPU])
+    KNOWN_CONSTS.update(regs)
+    KNOWN_CONSTS.update(alias)
+    KNOWN_CONSTS.update(arrays)
     ty = ["import DoraModel.X64.Sem",
           "/-! GENERATED by tools/rs2lean_masm.py — do not edit. Enums and constants of the baseline macro assembler. -/",
           "namespace Dora.Masm", "open Dora.X64.Sem", ""]
